@@ -20,11 +20,11 @@ variable {N : Num}
 /-! ## the generated tables -/
 
 /-- The operator tables read from the source on this run are exactly Python's operator ↦ the C++ operator of the
-same meaning; `**` is *not* in the binary table (it takes the `std::pow` path), `~` not in the unary one. -/
+same meaning (rows sorted by name); `**` is *not* in the binary table (it takes the `std::pow` path), `~` not in the unary one. -/
 theorem operator_tables :
-    binaryOps = [("Add", "+"), ("Sub", "-"), ("Mult", "*"), ("Div", "/"), ("Mod", "%")] ∧
-    unaryOps = [("UAdd", "+"), ("USub", "-"), ("Not", "!")] ∧
-    compareOps = [("Lt", "<"), ("LtE", "<="), ("Gt", ">"), ("GtE", ">="), ("Eq", "=="), ("NotEq", "!=")] := by
+    binaryOps = [("Add", "+"), ("Div", "/"), ("Mod", "%"), ("Mult", "*"), ("Sub", "-")] ∧
+    unaryOps = [("Not", "!"), ("UAdd", "+"), ("USub", "-")] ∧
+    compareOps = [("Eq", "=="), ("Gt", ">"), ("GtE", ">="), ("Lt", "<"), ("LtE", "<="), ("NotEq", "!=")] := by
   decide
 
 /-- `_type_priority` as read from the source orders the types by width (int < float < double) and does not
